@@ -303,9 +303,17 @@ def _reactor(case, mode):
                 rec["auts"] = [dict(x) for x in a[0]]
             return out
         return f
+    pm_saved = getattr(SR, "PartialMatcher", None)
     try:
         for n, o in saved.items():
             setattr(SR, n, wrap(o))
+        if mode == "raw" and pm_saved is not None:
+            # "applying the rule at every match": with partial=True the matcher's own symmetry pruning is switched off too
+            class _NoPrune(pm_saved):
+                def __init__(self, *a, **k):
+                    k["prune_auto"] = False
+                    super().__init__(*a, **k)
+            SR.PartialMatcher = _NoPrune
         tpl = rsmi_to_its(case["tpl"], core=case["core"])
         r = SR.SynReactor(case["sub"], tpl, invert=case["invert"], **case.get("opts", {}))
         maps = r.mappings
@@ -325,6 +333,8 @@ def _reactor(case, mode):
     finally:
         for n, o in saved.items():
             setattr(SR, n, o)
+        if pm_saved is not None:
+            SR.PartialMatcher = pm_saved
 
 
 def _flat(g):
